@@ -55,7 +55,7 @@ import "example.com/scion-time/net/ntske"
 //@   ensures next: result1 == nil ==> result0 == pos+4+pad4(len(u.ID))
 //@   ensures kind: result1 == nil ==> be16(buf, pos) == 260 && be16(buf, pos+2) == mathint(4+pad4(len(u.ID)))
 //@   ensures value: result1 == nil ==> forall(q, pos+4, pos+4+len(u.ID), buf[q] == u.ID[q-pos-4])
-//@   ensures before: forall(q, 0, pos, buf[q] == old(buf[q]))
+//@   ensures before: forallq(q, 0, pos, buf[q] == old(buf[q]))
 
 //@ func (Cookie).pack
 //@   requires regionof(c.Cookie) != regionof(buf)
@@ -65,7 +65,7 @@ import "example.com/scion-time/net/ntske"
 //@   ensures next: result1 == nil && result0 == pos+4+pad4(len(c.Cookie))
 //@   ensures kind: be16(buf, pos) == 516 && be16(buf, pos+2) == mathint(4+pad4(len(c.Cookie)))
 //@   ensures value: forall(q, pos+4, pos+4+len(c.Cookie), buf[q] == c.Cookie[q-pos-4])
-//@   ensures before: forall(q, 0, pos, buf[q] == old(buf[q]))
+//@   ensures before: forallq(q, 0, pos, buf[q] == old(buf[q]))
 
 // A placeholder must be typed as a placeholder (0x0304 = 772) on the wire.
 //@ func (CookiePlaceholder).pack
@@ -75,7 +75,7 @@ import "example.com/scion-time/net/ntske"
 //@   allocates
 //@   ensures next: result1 == nil && result0 == pos+4+pad4(len(c.Cookie))
 //@   ensures kind: be16(buf, pos) == 772 && be16(buf, pos+2) == mathint(4+pad4(len(c.Cookie)))
-//@   ensures before: forall(q, 0, pos, buf[q] == old(buf[q]))
+//@   ensures before: forallq(q, 0, pos, buf[q] == old(buf[q]))
 
 //@ func (*UniqueIdentifier).unpack
 //@   requires u != nil && 0 <= pos && pos <= len(buf)
@@ -115,7 +115,7 @@ import "example.com/scion-time/net/ntske"
 //@   ensures next: result1 == nil ==> result0 == pos+40+pad4(len(a.PlainText))
 //@   ensures kind: result1 == nil ==> be16(buf, pos) == 1028 && be16(buf, pos+2) == mathint(40+pad4(len(a.PlainText))) && be16(buf, pos+4) == 16 && be16(buf, pos+6) == mathint(len(a.PlainText)+16)
 //@   ensures covered: result1 == nil ==> sealed() && sameslice(lastSealAD(), buf[:pos]) && sameslice(lastSealPT(), a.PlainText) && sameslice(lastSealKey(), a.Key)
-//@   ensures before: forall(q, 0, pos, buf[q] == old(buf[q]))
+//@   ensures before: forallq(q, 0, pos, buf[q] == old(buf[q]))
 
 // Size of an encoded NTS packet (all cookies of one length, all placeholders of one length), in unbounded integers.
 //@ pred mpad4(n) = ((mathint(n)+3)/4*4)
@@ -137,12 +137,15 @@ import "example.com/scion-time/net/ntske"
 //@   modifies *b, (*b)[:]
 //@   allocates
 //@   loop 0 invariant len(*b) == 1024 && (regionof(*b) == before(regionof(*b))) && offsetof(*b) == before(offsetof(*b)) && err == nil
+//@   loop 0 invariant forallq(q, 0, 48, (*b)[q] == old((*b)[q]))
 //@   loop 0 invariant mathint(pos) == 52+mpad4(len(pkt.UniqueID.ID))+mathint(iter())*cunit(pkt)
 //@   loop 0 invariant mathint(pos)+(mathint(len(pkt.Cookies))-mathint(iter()))*cunit(pkt)+mathint(len(pkt.CookiePlaceholders))*punit(pkt)+40+mpad4(len(pkt.Auth.PlainText)) <= 1024
 //@   loop 1 invariant len(*b) == 1024 && (regionof(*b) == before(regionof(*b))) && offsetof(*b) == before(offsetof(*b)) && err == nil
+//@   loop 1 invariant forallq(q, 0, 48, (*b)[q] == old((*b)[q]))
 //@   loop 1 invariant mathint(pos) == 52+mpad4(len(pkt.UniqueID.ID))+mathint(len(pkt.Cookies))*cunit(pkt)+mathint(iter())*punit(pkt)
 //@   loop 1 invariant mathint(pos)+(mathint(len(pkt.CookiePlaceholders))-mathint(iter()))*punit(pkt)+40+mpad4(len(pkt.Auth.PlainText)) <= 1024
 //@   ensures length: mathint(len(*b)) == ntsLen(pkt)
+//@   ensures header: forallq(q, 0, 48, (*b)[q] == old((*b)[q]))
 //@   ensures covered: sealed() && sameslice(lastSealAD(), (*b)[:len(*b)-40-pad4(len(pkt.Auth.PlainText))]) && sameslice(lastSealKey(), pkt.Auth.Key) && sameslice(lastSealPT(), pkt.Auth.PlainText)
 
 // Verification of the authenticator: the key handed to Open is `key`, the associated data is exactly the
@@ -174,6 +177,7 @@ import "example.com/scion-time/net/ntske"
 //@   allocates
 //@   loop 0 invariant len((*ntskeFetcher.VerifPool())) == before(len((*ntskeFetcher.VerifPool())))+iter() && (regionof((*ntskeFetcher.VerifPool())) == old(regionof((*ntskeFetcher.VerifPool()))) || fresh((*ntskeFetcher.VerifPool())))
 //@   ensures uid: result == nil ==> bytes.Equal(reqID, pkt.UniqueID.ID)
+//@   ensures uidbytes: result == nil ==> len(reqID) == len(pkt.UniqueID.ID) && forall(q, 0, len(reqID), reqID[q] == pkt.UniqueID.ID[q])
 //@   ensures opened: result == nil ==> opened() && sameslice(lastOpenKey(), key) && sameslice(lastOpenAD(), b[:pkt.Auth.pos]) && sameslice(lastOpenNonce(), pkt.Auth.Nonce) && sameslice(lastOpenCT(), pkt.Auth.CipherText)
 //@   ensures stored: result == nil ==> len((*ntskeFetcher.VerifPool())) == old(len((*ntskeFetcher.VerifPool())))+len(pkt.Cookies)
 //@   ensures rejected: result != nil ==> len((*ntskeFetcher.VerifPool())) == old(len((*ntskeFetcher.VerifPool()))) && regionof((*ntskeFetcher.VerifPool())) == old(regionof((*ntskeFetcher.VerifPool())))
@@ -181,13 +185,13 @@ import "example.com/scion-time/net/ntske"
 // One cookie (the first of the pool) plus one placeholder of the same length per cookie missing from a
 // pool of eight; a fresh 32-byte unique identifier; the client-to-server key.
 //@ func NewRequestPacket
-//@   requires 1 <= len(ntskeData.Cookie) && len(ntskeData.Cookie) <= 8
+//@   requires 1 <= len(ntskeData.Cookie)
 //@   allocates
-//@   loop 0 invariant len(pkt.CookiePlaceholders) == i-len(ntskeData.Cookie) && len(cookiePlaceholderData) == len(ntskeData.Cookie[0]) && (cap(pkt.CookiePlaceholders) == 0 || fresh(pkt.CookiePlaceholders))
+//@   loop 0 invariant len(pkt.CookiePlaceholders) == i-len(ntskeData.Cookie) && (i <= 8 || i == len(ntskeData.Cookie)) && len(cookiePlaceholderData) == len(ntskeData.Cookie[0]) && (cap(pkt.CookiePlaceholders) == 0 || fresh(pkt.CookiePlaceholders))
 //@   loop 0 invariant forall(q, 0, len(pkt.CookiePlaceholders), sameslice(pkt.CookiePlaceholders[q].Cookie, cookiePlaceholderData))
 //@   loop 0 invariant len(pkt.Cookies) == 1 && sameslice(pkt.Cookies[0].Cookie, ntskeData.Cookie[0]) && fresh(pkt.Cookies) && len(id) == 32 && sameslice(pkt.UniqueID.ID, id)
 //@   ensures cookie: len(pkt.Cookies) == 1 && sameslice(pkt.Cookies[0].Cookie, ntskeData.Cookie[0])
-//@   ensures placeholders: len(pkt.CookiePlaceholders) == 8-len(ntskeData.Cookie) && forall(q, 0, len(pkt.CookiePlaceholders), len(pkt.CookiePlaceholders[q].Cookie) == len(ntskeData.Cookie[0]))
+//@   ensures placeholders: (len(ntskeData.Cookie) <= 8 ==> len(pkt.CookiePlaceholders) == 8-len(ntskeData.Cookie)) && (len(ntskeData.Cookie) > 8 ==> len(pkt.CookiePlaceholders) == 0) && forall(q, 0, len(pkt.CookiePlaceholders), len(pkt.CookiePlaceholders[q].Cookie) == len(ntskeData.Cookie[0]))
 //@   ensures uid: len(uniqueid) == 32 && sameslice(pkt.UniqueID.ID, uniqueid) && fresh(uniqueid)
 //@   ensures key: sameslice(pkt.Auth.Key, ntskeData.C2sKey) && pkt.Auth.PlainText == nil
 
@@ -202,6 +206,10 @@ import "example.com/scion-time/net/ntske"
 
 // ---- Ghost harnesses (compiled only with the tag "verif"): client request and server reply, end to end ----
 // This project's servers issue 124-byte cookies (14 + 16-byte nonce + 94-byte ciphertext of a 78-byte plaintext).
+
+// VerifAuthPos is a ghost accessor (compiled only with the tag "verif"): it lets contracts in other packages name
+// the offset of the authenticator field within the datagram a Packet was decoded from, which is an unexported field.
+func (pkt *Packet) VerifAuthPos() int { return pkt.Auth.pos }
 
 func verifClientRequest(data ntske.Data) []byte {
 	buf := make([]byte, ntpPacketLen)
